@@ -336,6 +336,18 @@ def s1_init(ctx):
                 node = c
     ctx.check(ok_int, 'C17.S1', fi, node if ok_int else lp, 'each kept chunk contributes its whole interval (bounds[i], bounds[i+1])',
               'kept chunks are not whole intervals bounds[i:i+2] of the supplied grid')
+    # the stored bounds keep one (start, end) pair per kept chunk: the parity test needs the shared bound of adjacent chunks twice
+    fin = [a for a in fi.nodes(ast.Assign) if unparse(a.targets[0]) == 'self.chunks_kept' and not isinstance(a.value, ast.List)]
+    for a in fin:
+        v = a.value
+        f = dotted(v.func) if isinstance(v, ast.Call) else None
+        if f in ('np.array', 'np.asarray', 'np.concatenate', 'np.hstack', 'np.sort', 'list', 'tuple') or isinstance(v, ast.Attribute):
+            ctx.holds('C17.S1', fi, 'kept bounds are stored as the flat list of (start, end) pairs, multiplicity preserved', a)
+        elif f in ('np.unique', 'set', 'sorted') and (f != 'sorted' or 'set(' in unparse(v)):
+            ctx.violated('C17.S1', fi, a, '`%s` removes repeated bounds: adjacent kept chunks share a bound, and without the repetition the odd/even membership test '
+                         'drops every second chunk (stride 1)' % unparse(a))
+        else:
+            ctx.undecided('C17.S1', fi, 'conversion of the kept bounds `%s` not recognised' % unparse(a), a)
     # stored attributes used by __call__
     st = {unparse(t) for n_, t in q.stores_to(fi, lambda e: isinstance(e, ast.Attribute))}
     need = {'self.get_spikes_per_cluster', 'self.spike_times', 'self.chunks_kept'}
